@@ -1,7 +1,7 @@
 import Driver.Util
 import GoBeans.Model.Store
 import GoBeans.Model.GC
-import GoBeans.Lemmas.GCLog
+import GoBeans.Model.LogView
 import GoBeans.Spec.KV
 
 /-! engine `seq`: a real HStore driven by one client, against
@@ -39,6 +39,11 @@ def keyHash (k : Bytes) : Nat := (Gen.getKeyHashDefalut k).toNat
 def bucketOf (nb : Nat) (k : Bytes) : Nat :=
   let d := depthOf nb
   if d = 0 then 0 else keyHash k / 2 ^ (64 - 4 * d)
+
+/-- the bucket the REFERENCE key hash (C16) names — the oracle for C15 -/
+def refBucketOf (nb : Nat) (k : Bytes) : Nat :=
+  let d := depthOf nb
+  if d = 0 then 0 else Ref.keyHash k / 2 ^ (64 - 4 * d)
 
 def bodysum (b : Bytes) : String := s!"{b.length}.{(Gen.utilsFnv1a b).toNat}"
 def valSummary (b : Bytes) : String := if b.length ≤ 64 then tohex b else "S" ++ bodysum b
@@ -98,7 +103,7 @@ def run (lines : Array String) : IO Report := do
         let dfmax := ((kvOpt opts "dfmax").getD "0").toNat!
         let cfg : Cfg := { nb := nb, served := served, height := ((kvOpt opts "height").getD "3").toNat!, checkVHash := cv, dfmax := dfmax }
         st := { cfg := cfg, caseId := id, buckets := Array.replicate nb ({} : Store.Bucket), spec := [],
-                scfg := { dataFileMax := dfmax, checkVHash := cv }, active := true }
+                scfg := { dataFileMax := dfmax, checkVHash := cv, bodyMax := ((kvOpt opts "bodymax").getD "1048576").toNat! }, active := true }
         cases := cases + 1
         caseNontrivial := false
     | ["open"] => st := { st with active := false }
@@ -107,6 +112,14 @@ def run (lines : Array String) : IO Report := do
     let hash := keyHash
     let servedKey := fun (k : Bytes) => st.cfg.served.contains (bucketOf st.cfg.nb k)
     let scfgSpec : Spec.Cfg := { checkVHash := st.cfg.checkVHash }
+    -- C15: the code's (regenerated) key hash must route every key like the reference key hash
+    match ws with
+    | op :: kh :: _ =>
+        if ["set", "del", "incr", "get", "meta"].contains op then
+          let k := unhex kh
+          if bucketOf st.cfg.nb k ≠ refBucketOf st.cfg.nb k then
+            diff rep ln "oracle" s!"case={cid} key=C15/route-hash key {kh.take 40} is routed to bucket {bucketOf st.cfg.nb k} but the leading digits of its reference key hash name bucket {refBucketOf st.cfg.nb k}"
+    | _ => pure ()
     match ws with
     | "set" :: kh :: bh :: flag :: rev :: ts :: rest =>
         let k := unhex kh; let body := unhex bh
@@ -268,6 +281,16 @@ def run (lines : Array String) : IO Report := do
               let os := (ow.getD 1 "0").toNat!; let oe := (ow.getD 2 "0").toNat!
               if !(os ≤ oe && oe < b.head) then
                 diff rep ln "oracle" s!"case={cid} key=C17/range resolved range [{os},{oe}] is not below the head file {b.head}"
+              -- age limit: the first file after the range that has data on disk must be older than no_gc_days
+              let days : Int := if g.noGCDays < 0 then st.scfg.noGCDays else g.noGCDays
+              let succ := (List.range (b.head + 1)).find? (fun i => decide (i > oe) && (b.chunks i).hasDisk)
+              match succ with
+              | some i =>
+                  match (b.chunks i).firstTs with
+                  | some ts => if !(g.now - (ts : Int) > days * 86400) then
+                      diff rep ln "oracle" s!"case={cid} key=C17/age-limit range [{os},{oe}] accepted although the first record of the next file {i} (ts {ts}) is not older than {days} days at {g.now}"
+                  | none => pure ()
+              | none => pure ()
             if !pretend && obs.startsWith "RANGE" then
               let (b', stats) := Store.gcRun hash st.scfg b s e
               let m := s!"before={stats.numBefore} released={stats.numReleased} sizebefore={stats.sizeBefore} sizereleased={stats.sizeReleased}"
